@@ -38,12 +38,15 @@ def replay(col, case):
             for key, fn in table:
                 for shape in ("scalar", "array", "0d"):
                     arg = v if shape == "scalar" else np.array([v, v]) if shape == "array" else np.array(v)
+                    keep = np.array(arg, copy=True)
                     try:
                         got = fn(arg)
                     except Exception as ex:
                         col.violation(key + "-raises-" + type(ex).__name__, dict(rep, shape=shape, observed=repr(ex)[:200]))
                         continue
                     col.count(1)
+                    if not np.array_equal(keep, np.asarray(arg)):
+                        col.violation("converter-" + key + "-overwrites-input", dict(rep, shape=shape))
                     want = fl(case[key])
                     # RELATIVE agreement: "exact inverse" has to hold for trace-level mixing ratios, too
                     if not np.all(np.abs(np.asarray(got, dtype=float).ravel() - want) <= 1e-12 * abs(want)):
